@@ -318,6 +318,7 @@ class Interp:
         self.unsupported_ok = False
         self.sub_pc_start = None
         self.side_obligations = []  # (label, premises, goal): preconditions at modular call sites, asserts
+        self.flags = {}
 
     # ---- solver / path condition
 
@@ -1265,6 +1266,12 @@ class Interp:
             kwargs[k.arg] = self.eval(k.value, frame)
         if isinstance(fn, Builtin) and getattr(fn, "mutator", False):
             new = fn.fn(self, args, kwargs)
+            old = box.fields["v"] if box is not None else None
+            if old is None and S.is_term(recv):
+                old = recv
+            for a_ in args:
+                if S.is_term(a_) and old is not None:
+                    self.assume(z3.Implies(z3.And(S.isjson(old), S.json_value(a_)), S.isjson(new)))
             lib.store_back(self, box, e.func.value, frame, new)
             return S.NONE
         return self.call(fn, args, kwargs)
